@@ -160,6 +160,7 @@ type Model struct {
 	unsure       string
 	caughtAsData bool
 	raisePath    string
+	dev          Deviations
 	steps        int
 }
 
@@ -181,8 +182,17 @@ func norm(v Val) res    { return res{v: v} }
 func raise(e *MErr) res { return res{c: cRaise, err: e} }
 
 // Run predicts the outcome of p under plan.
-func Run(p *Program, plan map[int]PlanEntry) Outcome {
-	m := &Model{Plan: plan}
+// Deviations switch the model to the behaviour of recorded (known, unrepaired) findings, so
+// that a run can be recognised as showing exactly such a finding and nothing else.
+type Deviations struct {
+	VarCallArgsIgnored bool // the argument list of `recv.^f(args)` is not evaluated
+}
+
+func Run(p *Program, plan map[int]PlanEntry) Outcome { return RunWith(p, plan, Deviations{}) }
+
+// RunWith is Run under the given deviations.
+func RunWith(p *Program, plan map[int]PlanEntry, dev Deviations) Outcome {
+	m := &Model{Plan: plan, dev: dev}
 	env := newMEnv(nil)
 	r := m.body(p.Stmts, env)
 	o := Outcome{Trace: m.trace, NoFault: m.nofault, Paths: m.paths, Val: r.v, Unsure: m.unsure, CaughtAsData: m.caughtAsData, RaisePath: m.raisePath}
@@ -1071,7 +1081,7 @@ func (m *Model) litCall(n *N, env *MEnv) res {
 		}
 		chainArg = r.v
 	}
-	if n.K == KVarC && (len(n.L) > 0 || len(n.Kw) > 0) {
+	if n.K == KVarC && (len(n.L) > 0 || len(n.Kw) > 0) && !m.dev.VarCallArgsIgnored {
 		// the argument list of a variable call is written like that of any call: it is
 		// evaluated once, after the chain argument (what the callee then receives of it is
 		// not stated anywhere, so the value of such a call is left open)
